@@ -60,9 +60,10 @@ class IdsOnWire(Scenario):
 class DuplicateId(Scenario):
     """Scripted peer opens a stream, then sends another request frame on the same live id."""
 
-    def __init__(self, flavour, role, live_kind, dup_kind):
+    def __init__(self, flavour, role, live_kind, dup_kind, frag=False):
         self.name = 'duplicate-id'
-        self.params = {'flavour': flavour, 'role': role, 'live': live_kind, 'dup': dup_kind}
+        self.frag = frag  # the duplicate request arrives in two fragments (request frame with FOLLOWS, then a PAYLOAD frame)
+        self.params = {'flavour': flavour, 'role': role, 'live': live_kind, 'dup': dup_kind, 'frag': frag}
         self.world_kw = {'alts': ('all',), 'modes': ('Q', '0')}
         self.flavour, self.role, self.live, self.dup = flavour, role, live_kind, dup_kind
 
@@ -88,7 +89,11 @@ class DuplicateId(Scenario):
             inject(w, d, R.enc_request(tmap[self.live], sid, b'live', n=1))
 
         def dup(w):
-            inject(w, d, R.enc_request(tmap[self.dup], sid, b'dup', n=5))
+            if self.frag:
+                inject(w, d, R.enc_request(tmap[self.dup], sid, b'dup-first-', n=5, follows=True))
+                inject(w, d, R.enc_payload(sid, b'dup-rest', next=False) if False else R.enc_payload(sid, b'dup-rest'))
+            else:
+                inject(w, d, R.enc_request(tmap[self.dup], sid, b'dup', n=5))
 
         def emit1(w):
             pub.emit(P(b'e0'))
@@ -110,7 +115,7 @@ class DuplicateId(Scenario):
         tx = [ev[2] for ev in w.log if ev[0] == 'tx' and ev[1] == ep and ev[2].sid == self.sid]
         errs = [f for f in tx if f.type == R.ERROR]
         calls = [ev for ev in w.log if ev[0] == 'api' and ev[2] == 'handler' and ev[3].startswith('request_')]
-        tag = '%s/%s-on-%s' % (self.role, self.dup, self.live)
+        tag = '%s/%s-on-%s%s' % (self.role, self.dup, self.live, ' | fragmented' if self.frag else '')
         if len(errs) != 1 or errs[0].error_code != 0x202:
             out.append(('C13.dup-id-rejected', 'C13.dup-id-rejected | %s' % tag,
                         'expected exactly one ERROR[REJECTED] on stream %d, saw %s' % (self.sid, tx)))
@@ -196,6 +201,7 @@ def scenarios(unit):
         for live in ('stream', 'channel'):
             for dup in KINDS:
                 out.append((DuplicateId(fl, role, live, dup), 2))
+                out.append((DuplicateId(fl, role, live, dup, frag=True), 1))
     return out
 
 
@@ -209,7 +215,7 @@ def scenario_from(name, params):
         return WrapOnWire(params['flavour'], params['side'])
     if name == 'ids-on-wire':
         return IdsOnWire(params['flavour'], tuple(params['order']))
-    return DuplicateId(params['flavour'], params['role'], params['live'], params['dup'])
+    return DuplicateId(params['flavour'], params['role'], params['live'], params['dup'], params.get('frag', False))
 
 
 def replay(rec):
